@@ -337,10 +337,115 @@ Lemma zip_var P sh rs d :
   rs_ok sh rs = true -> length d = prodn sh -> lists_len P rs = true -> has_list rs = true ->
   impl_zip_var P sh rs d (zip_shape P rs) = Some (zslice P sh rs d).
 Proof.
-  intros Hok Hd Hl Hh. unfold impl_zip_var. rewrite zip_cells by assumption.
+  intros Hok Hd Hl Hh. unfold impl_zip_var.
+  destruct (Nat.eqb P 0) eqn:E.
+  { apply Nat.eqb_eq in E. subst P. f_equal. symmetry. apply length_zero_iff_nil.
+    rewrite zslice_length by assumption. reflexivity. }
+  rewrite zip_cells by assumption.
   apply assign_same_cells.
   - rewrite zslice_length by assumption. symmetry. apply prodn_insert.
   - unfold zip_shape. rewrite !prodn_insert, prodn_nonlist. reflexivity.
+Qed.
+
+(* ---- whole file ---- *)
+
+Lemma mapM_nth {B C} (f : B -> option C) x0 y0 : forall l r i,
+  mapM f l = Some r -> i < length l -> f (nth i l x0) = Some (nth i r y0).
+Proof.
+  induction l as [|x l IH]; intros r i H Hi; simpl in *; [lia|].
+  destruct (f x) eqn:E; [|discriminate]. destruct (mapM f l) eqn:E2; [|discriminate].
+  injection H as <-. destruct i; simpl; [exact E|]. apply IH; [reflexivity|lia].
+Qed.
+
+Lemma mapM_ext_in {B C} (f g : B -> option C) l :
+  (forall x, In x l -> f x = g x) -> mapM f l = mapM g l.
+Proof.
+  induction l as [|x l IH]; intros H; simpl; [reflexivity|].
+  rewrite H by now left. rewrite IH; [reflexivity|]. intros y Hy. apply H. now right.
+Qed.
+
+Lemma full_sel_ok n : rsel_ok n (RSlice (seq 0 n)) = true.
+Proof.
+  unfold rsel_ok. simpl. apply forallb_forall. intros i Hi. apply in_seq in Hi.
+  apply Nat.ltb_lt. lia.
+Qed.
+
+(* what resolve_dims guarantees for every dimension *)
+Lemma resolve_dims_spec dims kws rdims j :
+  resolve_dims dims kws = Some rdims -> j < length dims ->
+  rsel_ok (nth j dims 0) (nth j rdims (RSlice [])) = true /\
+  (forall l', nth j rdims (RSlice []) = RList l' -> In (length l') (list_lens kws)).
+Proof.
+  unfold resolve_dims. intros R Hj.
+  pose proof (mapM_nth _ (0, 0) (RSlice []) _ _ j R) as H.
+  rewrite combine_length, seq_length, Nat.min_id in H. specialize (H Hj).
+  rewrite combine_nth in H by apply seq_length. rewrite seq_nth in H by exact Hj.
+  simpl in H. unfold kwlookup in H.
+  destruct (find (fun p => fst p =? j) kws) as [p|] eqn:K.
+  - apply find_some in K as [Kin _]. split; [eapply resolve_ok; exact H|].
+    intros l' E. rewrite E in H. destruct (snd p) as [z|a b c|l] eqn:Es; simpl in H.
+    + destruct (norm_index _ z); discriminate.
+    + destruct (slice_indices _ a b c); discriminate.
+    + destruct (mapM (norm_index (nth j dims 0)) l) eqn:M; [|discriminate].
+      injection H as <-. apply mapM_length in M. rewrite M.
+      unfold list_lens. apply in_flat_map. exists p. split; [exact Kin|]. rewrite Es. now left.
+  - injection H as <-. split; [apply full_sel_ok|]. intros l' E. discriminate.
+Qed.
+
+Lemma rs_ok_maps dims rdims vd :
+  (forall j, In j vd -> rsel_ok (nth j dims 0) (nth j rdims (RSlice [])) = true) ->
+  rs_ok (map (fun j => nth j dims 0) vd) (map (fun j => nth j rdims (RSlice [])) vd) = true.
+Proof.
+  induction vd as [|j vd IH]; intros H; simpl; [reflexivity|].
+  rewrite H by now left. simpl. apply IH. intros k Hk. apply H. now right.
+Qed.
+
+Lemma lists_len_maps P rdims vd :
+  (forall j l', In j vd -> nth j rdims (RSlice []) = RList l' -> length l' = P) ->
+  lists_len P (map (fun j => nth j rdims (RSlice [])) vd) = true.
+Proof.
+  induction vd as [|j vd IH]; intros H; simpl; [reflexivity|].
+  apply andb_true_iff. split.
+  - destruct (nth j rdims (RSlice [])) eqn:E; try reflexivity. apply Nat.eqb_eq.
+    apply (H j); [now left|exact E].
+  - apply IH. intros k l' Hk. apply H. now right.
+Qed.
+
+Lemma filter_has_list rs : 1 <? length (filter is_list rs) = true -> has_list rs = true.
+Proof.
+  intros H. apply Nat.ltb_lt in H. unfold has_list. apply existsb_exists.
+  destruct (filter is_list rs) as [|r t] eqn:E; [simpl in H; lia|].
+  assert (Hin : In r (filter is_list rs)) by (rewrite E; now left).
+  apply filter_In in Hin. exists r. exact Hin.
+Qed.
+
+(* FULL, whole file: on every well-formed file and for every keyword list (malformed ones
+   included: both sides are then the error outcome) the repaired code is the specification *)
+Lemma slice_file (f : file A) kws :
+  wf_file f = true -> impl_slice_file f kws = spec_slice_file f kws.
+Proof.
+  intros Hwf. unfold impl_slice_file, spec_slice_file, slice_file_with.
+  destruct (negb (forallb (fun p => fst p <? length (f_dims f)) kws)); [reflexivity|].
+  set (ll := list_lens kws). set (any := 1 <? length ll). set (P := hd 0 ll).
+  destruct (any && negb (forallb (Nat.eqb P) ll)) eqn:E2; [reflexivity|].
+  destruct (resolve_dims (f_dims f) kws) as [rdims|] eqn:R; [|reflexivity].
+  match goal with |- match mapM ?F _ with _ => _ end = match mapM ?G _ with _ => _ end =>
+    rewrite (mapM_ext_in F G) end; [reflexivity|].
+  intros v Hv. unfold wf_file in Hwf. rewrite forallb_forall in Hwf. specialize (Hwf v Hv).
+  apply andb_true_iff in Hwf as [Hd Hlen]. rewrite forallb_forall in Hd. apply Nat.eqb_eq in Hlen.
+  assert (Hj : forall j, In j (v_dims v) -> j < length (f_dims f))
+    by (intros j Hj; apply Nat.ltb_lt; apply Hd; exact Hj).
+  assert (Hok : rs_ok (map (fun j => nth j (f_dims f) 0) (v_dims v))
+                      (map (fun j => nth j rdims (RSlice [])) (v_dims v)) = true).
+  { apply rs_ok_maps. intros j Hin. eapply resolve_dims_spec; [exact R|apply Hj; exact Hin]. }
+  destruct (any && (1 <? length (filter is_list (map (fun j => nth j rdims (RSlice [])) (v_dims v)))))
+    eqn:Z.
+  - apply andb_true_iff in Z as [Za Zl]. rewrite Za in E2. simpl in E2.
+    apply negb_false_iff in E2. rewrite forallb_forall in E2.
+    rewrite zip_var; [reflexivity|exact Hok|exact Hlen| |apply filter_has_list; exact Zl].
+    apply lists_len_maps. intros j l' Hin E. symmetry. apply Nat.eqb_eq. apply E2.
+    eapply resolve_dims_spec; [exact R|apply Hj; exact Hin|exact E].
+  - rewrite slice_var by assumption. reflexivity.
 Qed.
 
 End P.
